@@ -207,6 +207,11 @@ class Observer:
             return W.server_welcome_error(op[1])
         if k == "pump":
             return self.pump()
+        if k == "finish":
+            # cooperative completion (no close() of its own): connections come back, everything owed is delivered,
+            # pending stopService() calls complete
+            finish(W, self, [], do_close=False)
+            return "ok"
         if k != "settle" and len(op) > 1 and op[1] != ci:
             return W.do(op)
         n_int = len(c.internal)
@@ -263,11 +268,11 @@ class Observer:
                     line = " ".join(parts)
                 self.record(line, self._outcome(r, n_int))
             return r
-        if k in ("open", "drop", "svc_stopped", "fail_initial", "ws_fail"):
+        if k in ("open", "drop", "svc_stopped", "fail_initial", "ws_fail", "tcp_up"):
             r = W.do(op)
             if r != "noop":
                 line = {"open": "open", "drop": "drop", "svc_stopped": "svcstopped", "fail_initial": "failinitial",
-                        "ws_fail": "wsfail"}[k]
+                        "ws_fail": "wsfail", "tcp_up": "tcpup"}[k]
                 self.record(line, self._outcome(r, n_int))
             return r
         if k == "inject" and op[4] == "REFLECT":
@@ -487,6 +492,8 @@ def guided(seed, n_ops, profile, welcome_error=None, finish_run=False):
                 choices += [["open", 0]] * 6
                 if rng.random() < 0.25:
                     choices += [["ws_fail", 0]] * 2
+                if not c0.tcp and rng.random() < 0.4:
+                    choices += [["tcp_up", 0]] * 3        # TCP up, WebSocket negotiation pending
             if c0.conn is not None:
                 if c0.conn.c2s:
                     choices += [["c2s", 0]] * 8
@@ -578,6 +585,8 @@ def guided(seed, n_ops, profile, welcome_error=None, finish_run=False):
             if not st["closed"]:
                 if len(ops) >= st["t_close"]:
                     choices += [["api", 0, "close"]] * 6
+                elif c0.tcp and rng.random() < 0.15:
+                    choices += [["api", 0, "close"]] * 4   # close() while a connection is still negotiating
             elif rng.random() < 0.05:
                 choices += [["api", 0, "close"]]
             if any(n == "closed" for n, _ in c0.events):
@@ -663,6 +672,28 @@ def replay(ops, welcome_error=None, npeers=None, seed=0):
         return ob, summarize(W, ob)
 
 
+def connection_corpus():
+    """scripted runs around connection establishment: close() while the TCP connection is up and the WebSocket
+    negotiation is pending (first connection and reconnections), negotiation failures, with each way of entering a code"""
+    code = "4-purple-sausages"
+    starts = {"nocode": [], "set": [["api", 0, "set_code", code]], "allocate": [["api", 0, "allocate_code", 2]],
+              "input": [["api", 0, "input_code"]]}
+    out = []
+    for name, st in starts.items():
+        end = [["svc_stopped", 0], ["finish"]]
+        out.append(dict(ops=st + [["tcp_up", 0], ["api", 0, "close"]] + end, npeers=0, profile="conn:close-in-first-handshake:" + name))
+        out.append(dict(ops=[["tcp_up", 0]] + st + [["api", 0, "close"]] + end, npeers=0, profile="conn:code-in-first-handshake:" + name))
+        out.append(dict(ops=st + [["tcp_up", 0], ["ws_fail", 0], ["pump"], ["api", 0, "close"]] + end, npeers=0,
+                        profile="conn:first-handshake-fails:" + name))
+        out.append(dict(ops=st + [["open", 0], ["pump"], ["drop", 0], ["tcp_up", 0], ["api", 0, "close"]] + end + [["open", 0], ["pump"]],
+                        npeers=0, profile="conn:close-in-later-handshake:" + name))
+        out.append(dict(ops=st + [["open", 0], ["pump"], ["drop", 0], ["tcp_up", 0], ["ws_fail", 0], ["tcp_up", 0], ["open", 0], ["pump"],
+                                  ["api", 0, "close"], ["pump"]] + end, npeers=0, profile="conn:later-handshake-fails:" + name))
+        out.append(dict(ops=st + [["api", 0, "close"], ["tcp_up", 0], ["open", 0], ["pump"]] + end, npeers=0,
+                        profile="conn:close-before-any-connection:" + name))
+    return out
+
+
 def hostile_corpus():
     """scripted runs with a third mailbox participant: every class of unusable PAKE body / undecryptable bytes, alone,
     queued behind an early `version`, after the honest key exchange, and stashed before the local code is known"""
@@ -679,7 +710,7 @@ def hostile_corpus():
     junk = "00" * 60
     out = []
     for name, body in kinds.items():
-        end = [["api", 0, "close"], ["pump"], ["svc_stopped", 0], ["pump"]]
+        end = [["api", 0, "close"], ["pump"], ["finish"]]
         alone = [["api", 0, "set_code", code], ["open", 0], ["pump"]]
         out.append(dict(ops=alone + [["inject", 0, T, "pake", body], ["pump"]] + end, npeers=0, profile="hostile:alone:" + name))
         out.append(dict(ops=alone + [["inject", 0, T, "version", junk], ["inject", 0, T, "0", junk], ["inject", 0, T, "pake", body],
